@@ -40,7 +40,7 @@ def main():
             rc, out = sh("/venv/bin/python -m pytest -q -p no:cacheprovider --timeout=900 --continue-on-collection-errors -rf adaptive/tests 2>&1 | grep -E '^FAILED|passed|failed'", cwd=wt, timeout=3000)
             failed = sorted(l.split()[1] for l in out.splitlines() if l.startswith("FAILED"))
             base = open("/verif/tools/baseline_failed.txt").read().split()
-            flaky = ("test_tell_in_random_order", "test_point_adding_order_is_irrelevant[LearnerND")
+            flaky = ("test_tell_in_random_order", "test_point_adding_order_is_irrelevant[LearnerND", "test_default_executor")  # the last one: 900 s timeout on a loaded machine only
             res["new_test_failures"] = [f for f in failed if f not in base and not any(k in f for k in flaky)]
             res["tests_summary"] = out.splitlines()[-1] if out else ""
         env = dict(os.environ, VERIF_REPO=wt, VERIF_EVIDENCE_DIR="/tmp/mt/ev/" + name)
